@@ -227,27 +227,34 @@ def extra_checks(tier, seed):
                             'counts': {'obligations': len(exprs), 'discharged': len(exprs)}})
             else:
                 res.append({'name': name, 'status': 'inconclusive', 'detail': 'crosshair output: ' + ' | '.join(lines)[:500]})
-    # subprocess runs: import + one symbolic C04 instance under each cache size
-    for val in (None, '1', '16', '1024'):
+    # subprocess runs: import + symbolic C04 / C16 / C06 instances under each cache size (in parallel)
+    from concurrent.futures import ThreadPoolExecutor
+    jobs = [(val, prop, only) for val in (None, '1', '16', '1024')
+            for prop, only in (('C04', 'curve p2 m(1,) rat ins[u1] operations'), ('C16', 'history pivot-then-inverse n2'), ('C06', 'curve p2 m(1,) nonrat ins2-rem2 dir u operations'))]
+
+    def one(job):
+        val, prop, only = job
         env = dict(os.environ)
         env.pop('GEOMDL_CACHE_SIZE', None)
         if val is not None:
             env['GEOMDL_CACHE_SIZE'] = val
-        nm = 'C04/C16 instances under GEOMDL_CACHE_SIZE=%s' % val
         try:
-            ok = True
-            detail = []
-            for prop, only in (('C04', 'curve p2 m(1,) rat ins[u1] operations'), ('C16', 'history pivot-then-inverse n2'), ('C06', 'curve p2 m(1,) nonrat ins2-rem2 dir u operations')):
-                p = subprocess.run([sys.executable, '-m', 'sx.run', prop, '--tier', 'quick', '--only', only, '--no-evidence', '--jobs', '2'],
-                                   capture_output=True, text=True, timeout=900, cwd=VERIF, env=env)
-                last = (p.stdout.strip().splitlines() or ['?'])[-1]
-                detail.append('%s exit %d: %s' % (prop, p.returncode, last[-120:]))
-                if p.returncode != 0 or ' ok=0 ' in last:
-                    ok = False
-            if ok:
-                res.append({'name': nm, 'status': 'ok', 'detail': '; '.join(detail), 'counts': {'obligations': 3, 'discharged': 3}})
-            else:
-                res.append({'name': nm, 'status': 'cex', 'base': 'cache_size_run', 'detail': '; '.join(detail), 'model': {'GEOMDL_CACHE_SIZE': val}})
+            p = subprocess.run([sys.executable, '-m', 'sx.run', prop, '--tier', 'quick', '--only', only, '--no-evidence', '--jobs', '1'],
+                               capture_output=True, text=True, timeout=900, cwd=VERIF, env=env)
         except subprocess.TimeoutExpired:
-            res.append({'name': nm, 'status': 'inconclusive', 'detail': 'timeout'})
+            return job, None, 'timeout'
+        last = (p.stdout.strip().splitlines() or ['?'])[-1]
+        return job, p.returncode, last
+    with ThreadPoolExecutor(max_workers=12) as tp:
+        done = list(tp.map(one, jobs))
+    for val in (None, '1', '16', '1024'):
+        nm = 'C04/C16/C06 instances under GEOMDL_CACHE_SIZE=%s' % val
+        mine = [d for d in done if d[0][0] == val]
+        detail = '; '.join('%s exit %s: %s' % (j[1], rc, str(last)[-110:]) for j, rc, last in mine)
+        if any(rc is None for _, rc, _ in mine):
+            res.append({'name': nm, 'status': 'inconclusive', 'detail': detail})
+        elif all(rc == 0 and ' ok=0 ' not in last for _, rc, last in mine):
+            res.append({'name': nm, 'status': 'ok', 'detail': detail, 'counts': {'obligations': 3, 'discharged': 3}})
+        else:
+            res.append({'name': nm, 'status': 'cex', 'base': 'cache_size_run', 'detail': detail, 'model': {'GEOMDL_CACHE_SIZE': val}})
     return res
